@@ -67,6 +67,10 @@ var lsContents = []string{
 	"language l(go);\n\n:: lexer\n\n%s initial, inStr;\n\n<initial> id: /[a-z]+/\n<inStr> str: /[^\"]+/\n<initial, inStr> q: /\"/\n\n:: parser\n\n%flag A;\n\ninput -> Root: item<+A> ;\nitem<A> -> Item: [A] id | q str q -> Str ;\n",
 	// 7: non-ASCII, valid, with references on the same lines
 	"language l(go);\n\n:: lexer\n\n'😀': /x/\n'é': /y/\nid: /[a-z]+/\n\n:: parser\n\ninput: '😀' foo '😀' foob '😀' foo ;\nfoo: id ;\nfoob: 'é' foo 'é' '😀' foo ;\n",
+	// 9: an error whose origin spans several lines (two-line header, no input nonterminal): its first line is the shorter one
+	"language l(\n              go);\n\n:: lexer\n\nid: /[a-z]+/\n\n:: parser\n\nx: id ;\n",
+	// 10: conflicts (the summary's origin is the whole text), no final newline, a long last line
+	"language l(go);\n\n:: lexer\n\nid: /[a-z]+/\n\n:: parser\n\ninput: e ;\ne: e id e | id | e id e id e id e id e id e id e id e id ;",
 	// 8: CRLF line ends, an error after a non-ASCII literal
 	"language l(go);\r\n\r\n:: lexer\r\n\r\n'é': /é/\r\nid: /[a-z]+/\r\n\r\n:: parser\r\n\r\ninput: 'é' nope id ;\r\n",
 }
@@ -322,7 +326,12 @@ func lsDecode(m map[string]json.RawMessage, short func(string) string) (lsRecv, 
 		return r, true
 	}
 	if id, ok := m["id"]; ok {
-		json.Unmarshal(id, &r.ID)
+		var sid string
+		if json.Unmarshal(id, &sid) == nil && strings.HasPrefix(sid, "r") {
+			r.ID, _ = strconv.Atoi(sid[1:])
+		} else {
+			json.Unmarshal(id, &r.ID)
+		}
 		r.T = "reply"
 		if e, ok := m["error"]; ok && string(e) != "null" {
 			r.Err = true
@@ -427,7 +436,7 @@ func (s *lsServer) run(c *lsCase, tables map[int]*lsTable) bool {
 				}
 			}
 			op.ID = target
-			msg = map[string]any{"jsonrpc": "2.0", "method": "$/cancelRequest", "params": map[string]any{"id": target}}
+			msg = map[string]any{"jsonrpc": "2.0", "method": "$/cancelRequest", "params": map[string]any{"id": fmt.Sprintf("r%d", target)}}
 		case "def":
 			op.ID = i + 1
 			cid := latest[op.U]
@@ -437,7 +446,8 @@ func (s *lsServer) run(c *lsCase, tables map[int]*lsTable) bool {
 			ps := lsPositions(tables[c.Contents[cid-1]])
 			pos := ps[op.P%len(ps)]
 			op.Line, op.Ch = pos[0], pos[1]
-			msg = map[string]any{"jsonrpc": "2.0", "id": op.ID, "method": "textDocument/definition", "params": map[string]any{
+			// string ids: the protocol library only honours $/cancelRequest for those
+			msg = map[string]any{"jsonrpc": "2.0", "id": fmt.Sprintf("r%d", op.ID), "method": "textDocument/definition", "params": map[string]any{
 				"textDocument": map[string]any{"uri": uri(op.U)}, "position": map[string]any{"line": op.Line, "character": op.Ch}}}
 			expect++
 		}
@@ -606,7 +616,14 @@ func lsRandom(args []string) error {
 	extra := 0
 	if dir := os.Getenv("VERIF_LS_CORPUS"); dir != "" {
 		files, _ := filepath.Glob(filepath.Join(dir, "*.tm"))
-		extra = len(files)
+		sort.Strings(files)
+		for _, f := range files {
+			b, err := os.ReadFile(f)
+			if err != nil {
+				return err
+			}
+			lsContents = append(lsContents, string(b))
+		}
 	}
 	w, err := newNDWriter(args[1])
 	if err != nil {
@@ -618,6 +635,34 @@ func lsRandom(args []string) error {
 		perm := r.Perm(len(lsContents) + extra)
 		for i := 0; i < nc; i++ {
 			c.Contents = append(c.Contents, perm[i]+1)
+		}
+		if r.Intn(8) == 0 {
+			// a large document behind slow handlers, requests cancelled while they run, and asked again
+			big := 0
+			for i, t := range lsContents {
+				if len(t) > 8000 {
+					big = i + 1
+				}
+			}
+			if big > 0 {
+				c.Contents = []int{big, 1 + r.Intn(3)}
+				c.Mode = "pipelined"
+				c.Ops = []lsOp{{K: "open", U: "a", C: 1, Slow: true}}
+				for k := 0; k < 2+r.Intn(3); k++ {
+					c.Ops = append(c.Ops, lsOp{K: "def", U: "a", P: r.Intn(1000)})
+					if r.Intn(3) > 0 {
+						c.Ops = append(c.Ops, lsOp{K: "cancel", U: "a"})
+					}
+					c.Ops = append(c.Ops, lsOp{K: "def", U: "a", P: r.Intn(1000)})
+					if r.Intn(4) == 0 {
+						c.Ops = append(c.Ops, lsOp{K: "change", U: "a", C: 1 + r.Intn(2), Slow: r.Intn(2) == 0})
+					}
+				}
+				if err := w.Write(c); err != nil {
+					return err
+				}
+				continue
+			}
 		}
 		ln := 3 + r.Intn(maxLen-2)
 		open := map[string]bool{}
